@@ -274,6 +274,21 @@ def check_section_algebra(ctx, db):
 
         def value(self, e, env):
             e0 = _strip_casts(e)
+            # an operand of the section: any access to the caller's point array whose address is affine in the section loop
+            # (`points[i + 1]`, `*point++`, `point[1]` with `point += n` in the increment, ...): operand number = offset within
+            # the iteration (sa/loops.py), so the spelling of the cursor is irrelevant
+            lp = getattr(self, 'lp', None)
+            if lp is not None and e0 is not None and (e0.k == 'ArraySubscriptExpr' or (e0.k == 'UnaryOperator' and e0.op == '*') or (e0.k == 'CXXOperatorCallExpr' and e0.op == '[]')):
+                try:
+                    lin = lp.addr(e0)
+                except Exception:
+                    lin = None
+                if lin is not None:
+                    bases = [k_ for k_ in lin if isinstance(k_, str) and k_.endswith('.items')]
+                    rest = {k_: v for k_, v in lin.items() if k_ not in bases and k_ not in (1, '@k')}
+                    if len(bases) == 1 and not rest and bases[0].endswith(':points.items'):
+                        k_ = lin.get(1, 0)
+                        return self.vec(S.atom('P%d.x' % k_), S.atom('P%d.y' % k_))
             if e0 is not None and e0.k == 'UnaryOperator' and e0.op == '*':
                 sub = _strip_casts(e0.child('sub'))
                 if sub.k == 'UnaryOperator' and sub.op == 'post++' and _strip_casts(sub.child('sub')).k == 'DeclRefExpr' and _strip_casts(sub.child('sub')).n == 'point':
@@ -321,8 +336,10 @@ def check_section_algebra(ctx, db):
             if loop is None:
                 raise AnalysisBroken('%s: section loop not found' % qn)
             calls = []
+            from .. import loops as LP_
+            alg.lp = LP_.Loop(f, loop)
             try:
-                for s_ in [x for x in loop.child('body').c if x is not None]:
+                for s_ in loop.child('body').stmts():
                     if s_.k == 'DeclStmt':
                         for v in s_.c:
                             if v is not None and v.k == 'VarDecl' and v.child('init') is not None:
@@ -338,7 +355,7 @@ def check_section_algebra(ctx, db):
                 raise AnalysisBroken('%s is outside the algebra: %s' % (qn, e))
             base = R if relative else alg.vec(S.P(0), S.P(0))
             if smooth:
-                ops = [alg.vec(S.atom('Q%d.x' % k), S.atom('Q%d.y' % k)) for k in range(npts)]
+                ops = [alg.vec(S.atom('P%d.x' % k), S.atom('P%d.y' % k)) for k in range(npts)]
                 refl = alg.vadd(alg.vmul(L, S.P(2)), K, -1)
                 want = [L, refl] + [alg.vadd(base, o) for o in ops]
                 want_state = (alg.vadd(base, ops[-1]), alg.vadd(base, ops[0]) if npts == 2 else refl)
